@@ -949,6 +949,13 @@ func genKflFuzz(r *Rand, tier string, emit func(sx.Sx)) {
 	for _, f := range fixed {
 		emitQ(f)
 	}
+	// lists whose elements are objects or arrays under == / != (cookies against cookies, a matrix against itself):
+	// comparable as values, not with Go's == on interface values
+	listRec := `{"ck":[{"name":"a","value":"b"}],"sk":[{"name":"a","value":"b"}],"two":[{"x":1},{"x":2}],"m":[[1],[2]],"mix":[1,{"x":1},[2]],"n":[null,null],"s":[1,2]}`
+	for _, q := range []string{"ck == sk", "ck != sk", "ck == ck", "two == two", "two != ck", "m == m", "m != m", "mix == mix", "ck.* == sk.*", "two.* != two.*", "n == n", "s == s",
+		"m == two", "ck == 1", "1 == ck", "two.*.x == s", "m.* == s", "ck >= sk", "m < m"} {
+		emit(sx.L(sx.S(q), sx.S(listRec)))
+	}
 	// depth: the parser recurses once per parenthesis, unary operator and clause - queries just inside what it
 	// accepts, and far beyond (a stack overflow is fatal to the process, not a panic)
 	for _, k := range []int{1500, 300000} {
